@@ -3,6 +3,7 @@
 -/
 import OttoVerif.C04.Spec
 import OttoVerif.C04.EarlySpec
+import OttoVerif.C04.Reserved
 namespace OttoVerif.C04.Thm
 open OttoVerif.C04 OttoVerif.C04.Spec
 
@@ -328,5 +329,33 @@ example : let p : SL := .cons (.label 0 (.loop .while_ (.block (.cons (.switch (
     devContL {} p = false ∧ acceptsL {} p = true ∧ earlyOKL {} p = true := by decide
 example : let p : SL := .cons (.label 0 (.switch (.cons (.cont (some 0)) .nil))) .nil
     devContL {} p = false ∧ acceptsL {} p = false ∧ earlyOKL {} p = false := by decide
+
+/-! ### reserved words -/
+
+section
+open OttoVerif.C04.Reserved
+/-- RESERVED WORDS: for EVERY decoded spelling, the scanner model produces the token IDENTIFIER exactly when the spelling is
+    not an ES5 ReservedWord — so every identifier position rejects exactly the reserved words, however they are written
+    (the decision is made on `decode spelling`, never on the raw text). -/
+theorem reserved_by_decoded (name : String) : (tokenKind name = .identifier) ↔ isReserved name = false := by
+  by_cases h : name ∈ reservedWords
+  · have hr : isReserved name = true := by simpa [isReserved] using h
+    simp only [hr]
+    simp only [reservedWords, List.mem_cons, List.mem_nil_iff, or_false] at h
+    rcases h with h|h|h|h|h|h|h|h|h|h|h|h|h|h|h|h|h|h|h|h|h|h|h|h|h|h|h|h|h|h|h|h|h|h|h|h <;> subst h <;> decide
+  · have hr : isReserved name = false := by simpa [isReserved] using h
+    simp only [hr, iff_true]
+    simp only [reservedWords, List.mem_cons, List.mem_nil_iff, or_false, not_or] at h
+    unfold tokenKind
+    split
+    · simp [table, lookup, h]
+      repeat' split
+      all_goals rfl
+    · rfl
+
+/-- the escaped spellings of the seeded examples decode to reserved words -/
+example : (decode "\\u0069f".toList).map String.ofList = some "if" ∧ (decode "v\\u0061r".toList).map String.ofList = some "var"
+    ∧ isReserved "if" = true ∧ tokenKind "if" = .keyword "if" ∧ tokenKind "let" = .identifier := by decide
+end
 
 end OttoVerif.C04.Thm
